@@ -18,12 +18,12 @@ CLAIMED = {
             "DESIGN.md §3 C02"),
     "C03": ("exploration",
             "offline checker over expansion results: every $ref left in the output is located (O-URL+O-PTR) and tested for membership of an input reference cycle (O-CYC); byte-identity of acyclic outputs over repeated runs",
-            "On the same kind of worlds as C02, with AbsoluteCircularRef on and off: each remaining $ref must resolve from the root location to a node on a reference cycle of the input, acyclic worlds must come out $ref-free and byte-identical over R runs, and the surface form (absolute / fragment-only into the root) is checked.",
+            "On the same kind of worlds as C02, with AbsoluteCircularRef on and off: each remaining $ref must resolve from the root location to a node on a reference cycle of the input, acyclic worlds must come out $ref-free and byte-identical over R runs, and the surface form (absolute / fragment-only into the root) is checked; plus ExpandSchemaWithBasePath of schemas that refer to the whole base document by name, and ExpandSpec of self-contained cyclic documents without any base location.",
             "Surface form in the weak reading (fragment-only required only for targets inside the root document).",
             "DESIGN.md §3 C03"),
     "C04": ("exploration",
             "invariant hook H1 (logical step counter, parent-ref stack) with a budget derived from the size of the acyclic unfolding (O-CYC); crash-isolated workers for fatal stack overflows",
-            "All reference graphs over <=2 (thorough <=3) schema nodes with two $ref slots each (targets: any node, dangling, ill-typed incl. null, wrong kind), 7 id variants, parameter/response/path-item self-references and cycles not containing the entry, on 1-2 documents, are run through 9 entry points and the 4 SkipSchemas/ContinueOnError combinations, plus random large graphs; non-termination is decided on logical steps (no wall clock), and a $ref pushed twice on the parent stack, a panic or a worker death is a violation.",
+            "All reference graphs over <=2 (thorough <=3) schema nodes with two $ref slots each (targets: any node, dangling, ill-typed incl. null, wrong kind), 11 id variants (absolute, relative file/directory, fragment, nodes referring to each other by id with the authority in normal form / upper case / default port, malformed ids), parameter/response/path-item self-references and cycles not containing the entry, on 1-2 documents, are run through 9 entry points and the 4 SkipSchemas/ContinueOnError combinations, plus random large graphs; non-termination is decided on logical steps (no wall clock), and a $ref pushed twice on the parent stack, a panic or a worker death is a violation.",
             "Termination restated as bounded progress (8*U+64 steps, 16*U+256 with ids; observed use < 25% of the budget); the open finding (relative-directory ids) is attributed by a counterfactual run with absolute ids.",
             "DESIGN.md §3 C04"),
     "C05": ("exploration",
@@ -33,7 +33,7 @@ CLAIMED = {
             "DESIGN.md §3 C05"),
     "C08": ("fault_enumeration",
             "fault injection at the boundary (recording PathLoader refusing every subset of the external documents; planted dangling/ill-typed/missing targets) with a reachability oracle for the must-follow set and bisimulation with verbatim unresolved leaves for continue-on-error",
-            "For each generated world every subset of its external documents (all 2^k for k<=4) is refused by the loader, in strict and continue-on-error mode, on top of planted dangling pointers, missing documents and string/number/boolean/array targets at every holder kind: strict mode must fail iff a reachable $ref is unresolvable, continue mode must not fail, must leave unresolvable schema $refs verbatim and expand the rest as without faults.",
+            "For each generated world every subset of its external documents (all 2^k for k<=4) is refused by the loader, in strict and continue-on-error mode, on top of planted dangling pointers, missing documents and string/number/boolean/array targets at every holder kind: strict mode must fail iff a reachable $ref is unresolvable, continue mode must not fail, must leave unresolvable schema $refs verbatim and expand the rest as without faults. Dangling pointers include near misses and pointers into null documents; the in-memory-root entry points are called for a root and the same root minus a referenced definition with one shared cache; a $ref next to an id is resolvable exactly where the id's scope says.",
             "The loader never refuses the root; non-schema holders of unresolvable $refs are wildcards under continue-on-error; worlds are sampled, fault subsets per world are enumerated.",
             "DESIGN.md §3 C08"),
     "C09": ("exploration",
@@ -43,7 +43,7 @@ CLAIMED = {
             "DESIGN.md §3 C09"),
     "C10": ("exploration",
             "reference-model monitor (O-DEN) on every single-element entry point x root representation x cache state, plus C03/C04 monitors, root and option snapshots",
-            "Every definition, parameter and response of generated roots is expanded through the six single-element entry points, with typed/generic roots, the element as fresh $ref holder or deep copy, and empty / pre-filled / previously-used caches; the result must denote what the element denotes in the context of that root, leave only resolvable cycle cut-points, stay within the step budget, and leave root and caller options untouched.",
+            "Every definition, parameter and response of generated roots is expanded through the six single-element entry points, with typed/generic roots, the element as fresh $ref holder or deep copy, and empty / pre-filled / previously-used caches; the result must denote what the element denotes in the context of that root, leave only resolvable cycle cut-points, stay within the step budget, and leave root and caller options untouched; multi-document worlds are also served from http layouts (other port/host/scheme), and an element with an id next to a relative $ref goes through every entry point.",
             "The *WithRoot entry points are exercised on single-document worlds (they are documented to reach the root only).",
             "DESIGN.md §3 C10"),
     "C11": ("exploration",
@@ -83,7 +83,7 @@ CLAIMED = {
             "DESIGN.md §3 C14"),
     "C16": ("exploration",
             "history monitor: every call of a generated call history over content-varying versions of the same URLs is judged by the independent oracles (O-DEN, designated sub-document) against the version it was given; loader event log per call; invariant hook H4 on the package-level cache at every quiescent point",
-            "Histories of 20 (thorough 60) public calls over three versions of a world that share every URL and the pseudo root but differ at every node, with the package-level loader swapped between calls and a caller-reused option structure; anything remembered from an earlier call shows up as a wrong marker, a missing loader request, a changed option or a changed package cache (keys, identity, JSON vs pinned meta-schemas).",
+            "Histories of 20 (thorough 60) public calls over three versions of a world that share every URL and the pseudo root but differ at every node, with the package-level loader swapped between calls and a caller-reused option structure; anything remembered from an earlier call shows up as a wrong marker, a missing loader request, a changed option or a changed package cache (keys, identity, JSON vs pinned meta-schemas); calls with nil options must read relative references from the working directory whatever earlier calls walked into.",
             "Worker processes run many histories back to back, so leaks across histories are seen too; the built-in meta-schemas are compared with pinned copies pushed through the same codec.",
             "DESIGN.md §3 C16"),
     "C17": ("exploration",
@@ -93,7 +93,7 @@ CLAIMED = {
             "DESIGN.md §3 C17"),
     "C18": ("exploration",
             "offline checkers over loader and cache event logs (at-most-once, never-request-cached, canonical keys) plus differential comparison of results with and without caches (fresh, every pre-loaded subset, reused, reused after a loader fault)",
-            "Every definition of generated multi-document roots is expanded with no cache, fresh caches (the library's own and a recording wrapper), every subset of the external documents pre-loaded, one cache reused over sequences of element expansions, and a cache that lived through a loader fault; results must equal the no-cache result and the request logs must obey the at-most-once and never-request-cached rules.",
+            "Every definition of generated multi-document roots is expanded with no cache, fresh caches (the library's own and a recording wrapper), every subset of the external documents pre-loaded, one cache reused over sequences of element expansions, and a cache that lived through a loader fault; results must equal the no-cache result and the request logs must obey the at-most-once and never-request-cached rules. The same for the three entry points that take an in-memory root, for id-scoped schemas (in an external document, or handed in directly with the id at a real document's location) and for documents located by a URL with a query.",
             "Pre-loaded entries are generic JSON under canonical URLs, as the loader path would have stored them.",
             "DESIGN.md §3 C18"),
     "C19": ("exploration",
